@@ -25,7 +25,17 @@ def run():
             t = ['AllocCache c1 s1 m1 jit=%d' % (i % 2), 'InitCache c1 K1', 'CreateVm v1 %s c1 none v2=%d hard=%d secure=%d' % (kind, v2, hard, secure),
                  'Hash v1 I1 key=K1', 'Hash v1 I2 key=K1', 'HashFirst v1 I2', 'HashNext v1 I1 key=K1 pin=I2', 'HashLast v1 key=K1 pin=I1', 'DestroyVm v1', 'ReleaseCache c1']
             scens.append({'text': '\n'.join(t) + '\n', 'ks': 0, 'iset': iset})
-    tabs = apiscen.fresh_tables(sorted(set((s['ks'], s['iset']) for s in scens)), ['IL', 'CL'], os.path.join(wd, 'fresh'))
+    # the empty key (a fresh VM's remembered key is empty too), and VMs that are handed BOTH a cache and a dataset: a light VM must keep
+    # using the cache (create and randomx_vm_set_dataset on a live light VM), a full-memory VM the dataset
+    for kind, hard, secure in (('CL', 0, 1), ('IL', 1, 0)):
+        t = ['AllocCache c1 s1 m1 jit=1', 'InitCache c1 K1', 'CreateVm v1 %s c1 none v2=0 hard=%d secure=%d' % (kind, hard, secure), 'Hash v1 I1 key=K1', 'Hash v1 I2 key=K1', 'DestroyVm v1', 'ReleaseCache c1']
+        scens.append({'text': '\n'.join(t) + '\n', 'ks': 2, 'iset': 0})
+    for kind in ('IL', 'CL'):
+        t = ['AllocCache c1 s1 m1 jit=1', 'InitCache c1 K1', 'AllocDataset d1 dm1 nchunks=1', 'InitDatasetChunk d1 c1 1 self=1',
+             'CreateVm v1 %s c1 d1 v2=1 hard=0 secure=0' % kind, 'Hash v1 I1 key=K1', 'SetDataset v1 d1', 'Hash v1 I2 key=K1', 'DestroyVm v1',
+             'CreateVm v1 %s c1 d1 v2=0 hard=0 secure=0' % ('IF' if kind == 'IL' else 'CF'), 'Hash v1 I1 key=K1', 'DestroyVm v1', 'ReleaseDataset d1', 'ReleaseCache c1']
+        scens.append({'text': '\n'.join(t) + '\n', 'ks': 0, 'iset': 1, 'full': True})
+    tabs = apiscen.fresh_tables(sorted(set((s['ks'], s['iset']) for s in scens)), lambda c: ['IL', 'CL', 'IF', 'CF'] if c == (0, 1) else ['IL', 'CL'], os.path.join(wd, 'fresh'))
     for s in scens:
         s['data'], s['fresh'] = tabs[(s['ks'], s['iset'])]
     traces = apiscen.replay(scens, os.path.join(wd, 'replay'), watchdog=600)
